@@ -217,6 +217,12 @@ def run(ctx):
         ctx.begin_case(case)
         ctx.observe("transform", "annotators(dense 3x15 block)")
         check_case(ctx, case)
+    # continua with an integrality gap (the solver has to branch) under annotator renaming
+    for hc in ac.hard_mip_cases(ctx, "partition", limit=ctx.scale(20, None)):
+        case = dict(hc, transform="annotators", family_exact=False, t_seed=rng.randrange(2 ** 31))
+        ctx.begin_case(case)
+        ctx.observe("transform", "annotators(integrality-gap corpus)")
+        check_case(ctx, case)
     # heavy-tailed durations under annotator renaming: which annotator comes first alphabetically must not decide which
     # far-but-long partner units are considered
     for i in range(ctx.scale(60, 1500)):
